@@ -144,13 +144,26 @@ class FindIdentifiers(_ast_util.NodeVisitor):
         # argument names in each function header so they arent
         # counted as "undeclared"
 
+        # argument defaults are evaluated in the enclosing scope
+        for default in node.args.defaults + node.args.kw_defaults:
+            if default is not None:
+                self.visit(default)
+
         inf = self.in_function
         self.in_function = True
 
-        local_ident_stack = self.local_ident_stack
-        self.local_ident_stack = local_ident_stack.union(
-            [arg_id(arg) for arg in self._expand_tuples(node.args.args)]
+        args = node.args
+        argnames = [
+            arg_id(arg)
+            for arg in self._expand_tuples(
+                args.posonlyargs + args.args + args.kwonlyargs
+            )
+        ]
+        argnames.extend(
+            arg.arg for arg in (args.vararg, args.kwarg) if arg is not None
         )
+        local_ident_stack = self.local_ident_stack
+        self.local_ident_stack = local_ident_stack.union(argnames)
         if islambda:
             self.visit(node.body)
         else:
